@@ -26,6 +26,14 @@ CHECKS["C05"] = dict(
     ref="DESIGN.md §5 C05",
 )
 
+CHECKS["C01"] = dict(
+    level="exploration",
+    text="Runtime monitoring of XmlSerializer.render / XmlParser under generated binding models x instances x 4 writer/handler pairs x serializer configurations; oracle = NaN-aware, type-exact deep equality in the harness, strictest parser configuration, invariant hooks on the parser end state and on 'Unassigned parsed object'. Held on the executions produced.",
+    note="Trusted: the harness model generator/materialiser (vf/ir.py) and its admissibility rules (listed in evidence assumptions); known findings keep their triggers out of the generated population and are re-confirmed by dedicated probes.",
+    technique="runtime monitoring: round-trip oracle at the public API boundary over a seeded feature-directed model/instance generator; invariant hooks on NodeParser.parse and the xsdata logger",
+    ref="DESIGN.md §5 C01",
+)
+
 FIX_COMMITS = []  # guarded hook commits in /repo (none: all hooks are installed from the harness side)
 
 
